@@ -308,6 +308,55 @@ func (x *Exec) Verify() {
 	x.enterBlock(p, fn.Blocks[0], nil, k)
 }
 
+// ---- private objects: allocated by this activation and not yet reachable by any other code ----------------------------
+
+// escapeOnStore: a private object whose address is stored anywhere but into a field of another private object (or a
+// local) becomes reachable by other code.
+func (x *Exec) escapeOnStore(p *Path, a *Addr, v Val) {
+	if len(p.private) == 0 {
+		return
+	}
+	switch a.Kind {
+	case ALocal:
+		return
+	case AField:
+		if _, ok := p.private[a.Obj]; ok {
+			return
+		}
+	}
+	x.escapeVal(p, v)
+}
+
+func (x *Exec) escapeVal(p *Path, v Val) {
+	if len(p.private) == 0 {
+		return
+	}
+	switch v.K {
+	case KScalar, KIface, KFunc:
+		if _, ok := p.private[v.S]; ok {
+			// what the object points to becomes reachable with it: give up on all of them (conservative)
+			p.private = map[string]string{}
+		}
+	case KStruct, KTuple:
+		for _, f := range v.Fs {
+			x.escapeVal(p, f)
+		}
+	case KSlice, KAddr:
+		// slices / addresses of private objects are not tracked: conservative
+		if v.K == KAddr && v.A != nil && v.A.Kind == AField {
+			if _, ok := p.private[v.A.Obj]; ok {
+				p.private = map[string]string{}
+			}
+		}
+	}
+}
+
+func (x *Exec) escapeArgs(p *Path, args []Val) {
+	for _, a := range args {
+		x.escapeVal(p, a)
+	}
+}
+
 // ---- type invariants (`inv` in a type block): thread-confined objects whose fields only their methods write ---------
 
 // invType: the contract of the struct type behind t (T or *T) if it declares invariants.
@@ -1663,6 +1712,10 @@ func (x *Exec) step(p *Path, in ssa.Instruction) {
 			r := e.alloc(p, in.Name())
 			p.nonnil[r] = true
 			tkey := typeKey(et)
+			if p.private == nil {
+				p.private = map[string]string{}
+			}
+			p.private[r] = tkey
 			for i := 0; i < st.NumFields(); i++ {
 				f := st.Field(i)
 				if _, isStruct := f.Type().Underlying().(*types.Struct); isStruct && !isTimeType(f.Type()) {
@@ -1818,6 +1871,7 @@ func (x *Exec) step(p *Path, in ssa.Instruction) {
 			return
 		}
 		x.guardCheck(p, av.A, true, in)
+		x.escapeOnStore(p, av.A, vv)
 		if vv.K == KSlice && av.A.Kind == AField && vv.Off != "0" {
 			x.oblige(p, "model", "field_slice_offset0", eq(vv.Off, "0"), nil, "heap model: a slice stored in a struct field starts at offset 0 of its backing array")
 		}
@@ -1956,6 +2010,11 @@ func (x *Exec) step(p *Path, in ssa.Instruction) {
 		set(in, Val{K: KSlice, T: in.Type(), S: r, Off: "0", Len: ln.S})
 	case *ssa.MakeClosure:
 		fnv := in.Fn.(*ssa.Function)
+		for _, b := range in.Bindings {
+			if bv, ok := fr.env[b]; ok {
+				x.escapeVal(p, bv)
+			}
+		}
 		r := Val{K: KFunc, T: in.Type(), S: e.alloc(p, "closure"), Fn: fnv}
 		// a closure that is only deferred / called directly by this function does not let its captured
 		// variables escape to other code
